@@ -169,42 +169,42 @@ type PathSample struct {
 }
 
 type Result struct {
-	Harness      string
-	Stats        Stats
-	Failures     []Failure
-	FailureCounts map[string]int
-	Inconclusive []string
-	BoundExceed  []string
-	BoundPaths   int64
-	Unsupported  []string
+	Harness          string
+	Stats            Stats
+	Failures         []Failure
+	FailureCounts    map[string]int
+	Inconclusive     []string
+	BoundExceed      []string
+	BoundPaths       int64
+	Unsupported      []string
 	UnsupportedPaths int64
-	EngineErrors []string
-	Reached      map[string]int64
-	Functions    map[string]bool
-	Intrinsics   map[string]bool
-	Assumptions  map[string]bool
-	Samples      []PathSample
-	SolverTime   time.Duration
-	SolverQ      int
-	SolverTime2  time.Duration
-	SolverQ2     int
-	Wall         time.Duration
-	Complete     bool // queue drained within budgets
-	MaxThreads   int
-	Schedules    int64
+	EngineErrors     []string
+	Reached          map[string]int64
+	Functions        map[string]bool
+	Intrinsics       map[string]bool
+	Assumptions      map[string]bool
+	Samples          []PathSample
+	SolverTime       time.Duration
+	SolverQ          int
+	SolverTime2      time.Duration
+	SolverQ2         int
+	Wall             time.Duration
+	Complete         bool // queue drained within budgets
+	MaxThreads       int
+	Schedules        int64
 }
 
 type explorePool struct {
-	mu      sync.Mutex
-	cond    *sync.Cond
-	queue   []WorkItem
-	busy    int
-	stop    bool
-	res     *Result
-	m       *Machine
-	cfg     Config
-	entry   *ssa.Function
-	started int64
+	mu        sync.Mutex
+	cond      *sync.Cond
+	queue     []WorkItem
+	busy      int
+	stop      bool
+	res       *Result
+	m         *Machine
+	cfg       Config
+	entry     *ssa.Function
+	started   int64
 	failCount map[string]int
 }
 
@@ -410,16 +410,16 @@ func (m *Machine) newInterpreter(ex *Explorer, funcs map[*ssa.Function]bool) *in
 }
 
 var defaultMapSites = map[string]bool{
-	genqlPath + ".ExecGroupBy":                  true,
-	"(*" + genqlPath + ".Join).HashJoinFunc":     true,
+	genqlPath + ".ExecGroupBy":                       true,
+	"(*" + genqlPath + ".Join).HashJoinFunc":         true,
 	"(*" + genqlPath + ".Join).ParallelHashJoinFunc": true,
-	"(*" + genqlPath + ".Join).JoinFunc":         true,
-	"(*" + genqlPath + ".Join).ParallelJoinFunc": true,
-	"(*" + genqlPath + ".Join).JoinMatchFunc":    true,
-	genqlPath + ".ComparisonExpr":               true,
-	genqlPath + ".DefaultKeyFunc":               true,
-	genqlPath + ".MixObject":                    true,
-	genqlPath + ".Import":                       true,
+	"(*" + genqlPath + ".Join).JoinFunc":             true,
+	"(*" + genqlPath + ".Join).ParallelJoinFunc":     true,
+	"(*" + genqlPath + ".Join).JoinMatchFunc":        true,
+	genqlPath + ".ComparisonExpr":                    true,
+	genqlPath + ".DefaultKeyFunc":                    true,
+	genqlPath + ".MixObject":                         true,
+	genqlPath + ".Import":                            true,
 }
 
 func (m *Machine) runPath(ex *Explorer, entry *ssa.Function, item WorkItem, funcs map[*ssa.Function]bool) (pr pathResult) {
